@@ -1,4 +1,115 @@
+/-
+  C02 — Bases and margins count exactly the respondents eligible for the denominator.
+  Property theorems only.
+-/
+import CrCube.Lemmas.SpecFacts
 import CrCube.Model.SliceApi
-import CrCube.Spec.SliceSpec
+import CrCube.Props.C06
+
+set_option linter.unusedSimpArgs false
+
 namespace CrCube.C02
+open CrCube
+
+/-- row base of cell (i, j): members of row element i with a valid answer on the column
+    dimension (for a multiple-response column: non-missing on item j). -/
+theorem rowBase_spec_2d (R C : Var) (hR : R.CM) (hC : C.CM) (s : Survey) (i j : Nat)
+    (hi : i < R.ext) (hj : j < C.ext) :
+    (sliceCounts [R, C] (cubeOf [R, C] s) 0).rowBases i j
+      = .fin (specCount [R, C] s [i, j] [false, true]) := by
+  rw [slice2d_rowBases R C hR hC]; exact raw_rowBases R C hR hC s i j hi hj
+
+/-- column base: the mirror image -/
+theorem colBase_spec_2d (R C : Var) (hR : R.CM) (hC : C.CM) (s : Survey) (i j : Nat)
+    (hi : i < R.ext) (hj : j < C.ext) :
+    (sliceCounts [R, C] (cubeOf [R, C] s) 0).columnBases i j
+      = .fin (specCount [R, C] s [i, j] [true, false]) := by
+  rw [slice2d_columnBases R C hR hC]; exact raw_colBases R C hR hC s i j hi hj
+
+/-- table base: respondents valid on both -/
+theorem tableBase_spec_2d (R C : Var) (hR : R.CM) (hC : C.CM) (s : Survey) (i j : Nat)
+    (hi : i < R.ext) (hj : j < C.ext) :
+    (sliceCounts [R, C] (cubeOf [R, C] s) 0).tableBases i j
+      = .fin (specCount [R, C] s [i, j] [true, true]) := by
+  rw [slice2d_tableBases R C hR hC]; exact raw_tableBases R C hR hC s i j hi hj
+
+/-- 3-D twins, within table element k -/
+theorem rowBase_spec_3d (T R C : Var) (hT : T.CM) (hR : R.CM) (hC : C.CM) (s : Survey)
+    (k i j : Nat) (hk : k < T.ext) (hi : i < R.ext) (hj : j < C.ext) :
+    (sliceCounts [T, R, C] (cubeOf [T, R, C] s) k).rowBases i j
+      = .fin (specCount [T, R, C] s [k, i, j] [false, false, true]) := by
+  rw [C06.partition_restricts T R C hT hR hC s k hk, rowBase_spec_2d R C hR hC _ i j hi hj,
+    C06.restrict_specCount T R C hT hR hC]
+
+theorem colBase_spec_3d (T R C : Var) (hT : T.CM) (hR : R.CM) (hC : C.CM) (s : Survey)
+    (k i j : Nat) (hk : k < T.ext) (hi : i < R.ext) (hj : j < C.ext) :
+    (sliceCounts [T, R, C] (cubeOf [T, R, C] s) k).columnBases i j
+      = .fin (specCount [T, R, C] s [k, i, j] [false, true, false]) := by
+  rw [C06.partition_restricts T R C hT hR hC s k hk, colBase_spec_2d R C hR hC _ i j hi hj,
+    C06.restrict_specCount T R C hT hR hC]
+
+theorem tableBase_spec_3d (T R C : Var) (hT : T.CM) (hR : R.CM) (hC : C.CM) (s : Survey)
+    (k i j : Nat) (hk : k < T.ext) (hi : i < R.ext) (hj : j < C.ext) :
+    (sliceCounts [T, R, C] (cubeOf [T, R, C] s) k).tableBases i j
+      = .fin (specCount [T, R, C] s [k, i, j] [false, true, true]) := by
+  rw [C06.partition_restricts T R C hT hR hC s k hk, tableBase_spec_2d R C hR hC _ i j hi hj,
+    C06.restrict_specCount T R C hT hR hC]
+
+/-- the unweighted bases are the same statements over the all-weights-1 survey, i.e. they count
+    respondents (instantiate `s := unweight s` above and use this) -/
+theorem unweighted_counts_respondents (vars : List Var) (s : Survey) (e : List Nat) (m : List Bool) :
+    specCount vars (unweight s) e m
+      = (((s.filter fun r => specMemAll vars r.ans e m).length : Nat) : Rat) :=
+  specCount_unweight vars s e m
+
+/-- **Margins are exactly the collapsed forms of the per-cell bases**, for every one of the nine
+    type-pair extractor classes (CAT/MR/ARR)²: whenever a 1-D margin or the scalar table base is
+    defined, every cell base along it equals it. -/
+theorem margins_collapse (rk ck : DK) (c : FT) :
+    let m := MatCounts.factory rk ck c
+    (∀ f, m.rowsBase = some f → ∀ i j, m.rowBases i j = f i) ∧
+    (∀ f, m.columnsBase = some f → ∀ i j, m.columnBases i j = f j) ∧
+    (∀ v, m.tableBase = some v → ∀ i j, m.tableBases i j = v) ∧
+    (∀ f, m.rowsTableBase = some f → ∀ i j, m.tableBases i j = f i) ∧
+    (∀ f, m.columnsTableBase = some f → ∀ i j, m.tableBases i j = f j) := by
+  cases rk <;> cases ck <;>
+    simp only [MatCounts.factory, MatCounts.catXcat, MatCounts.catXmr, MatCounts.catXarr,
+      MatCounts.mrXcat, MatCounts.mrXmr, MatCounts.mrXarr, MatCounts.arrXcat, MatCounts.arrXmr,
+      MatCounts.arrXarr] <;>
+    refine ⟨?_, ?_, ?_, ?_, ?_⟩ <;> intro f hf <;>
+    first
+      | (simp only [Option.some.injEq] at hf; subst hf; intro i j; rfl)
+      | (simp at hf)
+
+/-- the public margin is the 1-D base when defined and otherwise falls back to the 2-D bases -/
+theorem rowsMargin_cases (m : MatCounts) :
+    (∃ f, m.rowsBase = some f ∧ m.rowsMargin = .vec (tab1 m.nrows f)) ∨
+    (m.rowsBase = none ∧ m.rowsMargin = .mat (m.mat m.rowBases)) := by
+  unfold MatCounts.rowsMargin
+  cases h : m.rowsBase with
+  | none => right; exact ⟨rfl, rfl⟩
+  | some f => left; exact ⟨f, rfl, rfl⟩
+
+theorem columnsMargin_cases (m : MatCounts) :
+    (∃ f, m.columnsBase = some f ∧ m.columnsMargin = .vec (tab1 m.ncols f)) ∨
+    (m.columnsBase = none ∧ m.columnsMargin = .mat (m.mat m.columnBases)) := by
+  unfold MatCounts.columnsMargin
+  cases h : m.columnsBase with
+  | none => right; exact ⟨rfl, rfl⟩
+  | some f => left; exact ⟨f, rfl, rfl⟩
+
+/-- the minimum-base mask is true exactly where the (unweighted) base is below the threshold -/
+theorem minBaseMask_iff (u : MatCounts) (bases : Nat → Nat → Val) (size : Val) (i j : Nat)
+    (hi : i < u.nrows) (hj : j < u.ncols) :
+    ((u.maskOf bases size)[i]?.bind (·[j]?)) = some ((bases i j).lt size) := by
+  simp [MatCounts.maskOf, tab2, List.getElem?_map, List.getElem?_range hi, List.getElem?_range hj]
+
+/-- for finite values, "below the threshold" is the rational order -/
+theorem mask_fin (b t : Rat) : (Val.fin b).lt (.fin t) = decide (b < t) := rfl
+
+-- non-vacuity of the hypotheses: see C01; a concrete mask instance (test):
+example : (MatCounts.catXcat (FT.ofFlat [1, 2] [.fin 3, .fin 7])).maskOf
+    (MatCounts.catXcat (FT.ofFlat [1, 2] [.fin 3, .fin 7])).columnBases (.fin 5)
+    = [[true, false]] := by decide +kernel
+
 end CrCube.C02
